@@ -154,10 +154,10 @@ func VerifC38RoundTrip() {
 	switch {
 	case u.Protocol == Protocol_SSH && u.Port == 0 && verifDigitsThenColon(u.Path):
 		class = "[ssh zero port] "
-		vNote("SSH URL with explicit port 0 and a path that begins with digits and ':' (Format drops the zero port, the path's digits are re-parsed as the port)")
+		vNote("SSH URL with explicit port 0 and a path that begins with digits and ':' (if Format drops the zero port, the path's digits are re-parsed as the port)")
 	case u.Protocol == Protocol_Docker && u.User == "" && verifHasByte(u.Host, '@'):
 		class = "[docker empty user] "
-		vNote("Docker URL with empty user name ('docker://@...') whose container name contains '@' (Format drops the empty user, the container is re-split at '@')")
+		vNote("Docker URL with empty user name ('docker://@...') whose container name contains '@' (if Format drops the empty user, the container is re-split at '@')")
 	default:
 		vNote("URL text produced by parsing does not re-parse to the same URL")
 	}
